@@ -163,21 +163,38 @@ def observe(case):
     snap = {}
     orig = tad.Solver.solve_total_rewards
 
+    class _Enough(BaseException):
+        pass
+
     def wrapped(self):
+        # conditioning is finished when the reward solve starts: snapshot the lists and stop there
         snap["lists"] = [list(st_.next_states) for st_ in self.state_list]
-        return orig(self)
+        snap["probs"] = [st_.reach_probability for st_ in self.state_list]
+        raise _Enough()
     tad.Solver.solve_total_rewards = wrapped
     try:
         with sweep_budget(tad, 200000, n):
+            strat_box = {}
+            orig_prune = tad.Solver.prune_reachability
+
+            def spy_prune(self, strategies):
+                strat_box["s"] = strategies
+                return orig_prune(self, strategies)
+            tad.Solver.prune_reachability = spy_prune
             try:
-                res = tad.StochasticGame(prune_states=True, **g).solve()
+                tad.StochasticGame(prune_states=True, **g).solve()
+                return ("skip", "solve_total_rewards was not reached")
+            except _Enough:
+                pass
             except BudgetExceeded:
-                if "lists" in snap:
-                    return ("budget", snap["lists"])
                 return ("skip", "budget before conditioning")
+            finally:
+                tad.Solver.prune_reachability = orig_prune
     finally:
         tad.Solver.solve_total_rewards = orig
-    return snap["lists"], res[3], res[1]
+    if "s" not in strat_box:
+        return ("skip", "prune_reachability was not called")
+    return snap["lists"], snap["probs"], strat_box["s"]
 
 
 def model_lists(game, probs, strategies):
